@@ -312,10 +312,10 @@ class Array(Processor):
                 self.element_processor.process(ctx, di, accessor)
 
             # Skip redundant bits post decoding.
-            if self.extensible and not ctx.is_encode:
-                ito = i + ahead * self.capacity
-                if ito >= ctx.i:
-                    ctx.i = ito
+            if self.extensible and not ctx.is_encode and ahead > self.capacity:
+                # The opponent has (ahead - capacity) more elements, each occupies
+                # the same number of bits as the ones just decoded.
+                ctx.i += (ahead - self.capacity) * ((ctx.i - i - 16) // self.capacity)
 
     def encode_extensible_ahead(self, ctx: ProcessContext) -> None:
         """Encode the array capacity as the ahead flag to current bit encoding stream."""
